@@ -2,7 +2,7 @@
    of every map it iterates in an order-sensitive place, i.e. it is C16's generic
    resolver run with the oracle [sorting pi].
    (1) the resolver depends on its oracle only through the oracle's answers;
-   (2) [sorting pi] answers like [sort_oracle] whatever permutation oracle [pi] is;
+   (2) [sorting pi] answers like [name_order_oracle] whatever permutation oracle [pi] is;
    hence the WHOLE result of resolving - verdict, error, tables - is the same for
    any two map iteration orders: the full statement, no guard.
    (3) [sorting pi] is itself a permutation oracle, so every theorem of C16 applies
@@ -10,7 +10,7 @@
    (4) nativeFuncNames, filled from the native entries only, does not depend on the
    order of the map either. *)
 From Verif Require Import Lib.Base Model.Resolver Model.Determinism Proofs.Resolver Proofs.ResolverExact
-  Proofs.ResolverNoPanic Proofs.DeterminismSort Proofs.Determinism.
+  Proofs.ResolverNoPanic Proofs.ResolverFlat Proofs.ResolverLoop Proofs.DeterminismSort Proofs.DeterminismPerm Proofs.Determinism.
 From Coq Require Import Permutation.
 Open Scope Z_scope.
 
@@ -61,8 +61,8 @@ Qed.
 
 (* ---------- (2) sorting forgets the order the map delivered ------------------------------- *)
 
-Lemma sorting_answers pi : perm_oracle pi -> forall k l, sorting pi k l = sort_oracle k l.
-Proof. intros Hpi k l. unfold sorting, sort_oracle. apply sort_names_canonical. apply Hpi. Qed.
+Lemma sorting_answers pi : perm_oracle pi -> forall k l, sorting pi k l = name_order_oracle k l.
+Proof. intros Hpi k l. unfold sorting, name_order_oracle. apply sort_names_canonical. apply Hpi. Qed.
 
 (* PARSING IS DETERMINISTIC - the full statement: the complete result (verdict, error,
    types, indexes) is the same for any two map iteration orders, for every program *)
@@ -75,7 +75,7 @@ Proof.
 Qed.
 
 Theorem impl_is_sorted_order cut pi P :
-  perm_oracle pi -> resolve_cut cut (sorting pi) P = resolve_cut cut sort_oracle P.
+  perm_oracle pi -> resolve_cut cut (sorting pi) P = resolve_cut cut name_order_oracle P.
 Proof. intros Hpi. apply resolve_cut_ext. apply sorting_answers. exact Hpi. Qed.
 
 Lemma same_result_refl r : same_result r r.
@@ -88,7 +88,7 @@ Proof.
   intros Hpi k l. unfold sorting. eapply Permutation_trans; [apply sort_names_perm | apply Hpi].
 Qed.
 
-Lemma sort_oracle_perm : perm_oracle sort_oracle.
+Lemma name_order_oracle_perm_c19 : perm_oracle name_order_oracle.
 Proof. intros k l. apply sort_names_perm. Qed.
 
 (* ---------- (4) the function names kept for the disassembler --------------------------------- *)
@@ -126,4 +126,63 @@ Theorem name_shown_deterministic P order order' i :
 Proof.
   intros Hp. apply name_shown_deterministic_partial; [exact Hp|].
   intros n n' _ _. apply shown_hit_unique.
+Qed.
+
+(* ---------- (5) the resolver as it is now: no cut-off, no guard ------------------------------ *)
+
+(* C16 (Proofs/ResolverLoop.v): [resolve pi P = resolve_cut (pass_fuel P) pi P] and
+   [resolve pi P <> RErr ETooManyIter]; everything above and in Proofs/Determinism.v is
+   stated for every constant limit, so it carries over with the guards about the
+   cut-off discharged. *)
+
+Theorem impl_parse_deterministic pi pi' P :
+  perm_oracle pi -> perm_oracle pi' -> resolve (sorting pi) P = resolve (sorting pi') P.
+Proof. intros Hpi Hpi'. rewrite !resolve_is_cut. apply parse_deterministic; assumption. Qed.
+
+Theorem impl_is_name_order pi P :
+  perm_oracle pi -> resolve (sorting pi) P = resolve name_order_oracle P.
+Proof. intros Hpi. rewrite !resolve_is_cut. apply impl_is_sorted_order. exact Hpi. Qed.
+
+Theorem impl_accepted_deterministic pi pi' P F F' :
+  perm_oracle pi -> perm_oracle pi' -> names_ok P ->
+  resolve pi P = ROk F -> resolve pi' P = ROk F' -> final_equiv F F'.
+Proof. rewrite !resolve_is_cut. apply accepted_deterministic. Qed.
+
+Theorem impl_accepted_wf0 pi P F :
+  perm_oracle pi -> names_ok P -> resolve pi P = ROk F -> wf0 P = true.
+Proof. rewrite resolve_is_cut. apply accepted_wf0. Qed.
+
+(* VERDICT under an arbitrary walk order: no guard any more *)
+Theorem impl_verdict_any_order pi pi' P :
+  perm_oracle pi -> perm_oracle pi' -> names_ok P ->
+  ((exists F, resolve pi P = ROk F) <-> (exists F', resolve pi' P = ROk F')).
+Proof.
+  intros Hpi Hpi' Hne.
+  pose proof (resolve_never_gives_up pi P) as Hn. pose proof (resolve_never_gives_up pi' P) as Hn'.
+  rewrite resolve_is_cut in *. rewrite (resolve_is_cut pi' P) in *.
+  apply verdict_deterministic_partial; assumption.
+Qed.
+
+Theorem impl_outcome_enumerated pi P :
+  perm_oracle pi -> names_ok P -> In (resolve pi P) (order_outcomes (pass_fuel P) P).
+Proof. rewrite resolve_is_cut. apply outcome_enumerated. Qed.
+
+Theorem impl_error_any_order pi pi' P e e' :
+  perm_oracle pi -> perm_oracle pi' -> names_ok P -> one_error (pass_fuel P) P = true ->
+  resolve pi P = RErr e -> resolve pi' P = RErr e' -> e = e'.
+Proof. rewrite !resolve_is_cut. apply error_deterministic_partial. Qed.
+
+Theorem impl_single_function pi pi' P :
+  perm_oracle pi -> perm_oracle pi' -> names_ok P -> (length (p_funcs P) <= 1)%nat ->
+  resolve pi P = resolve pi' P.
+Proof. rewrite !resolve_is_cut. apply single_function_deterministic. Qed.
+
+Theorem impl_result_any_order pi pi' P :
+  perm_oracle pi -> perm_oracle pi' -> names_ok P -> one_error (pass_fuel P) P = true ->
+  same_result (resolve pi P) (resolve pi' P).
+Proof.
+  intros Hpi Hpi' Hne H1.
+  pose proof (resolve_never_gives_up pi P) as Hn. pose proof (resolve_never_gives_up pi' P) as Hn'.
+  rewrite resolve_is_cut in *. rewrite (resolve_is_cut pi' P) in *.
+  apply parse_deterministic_partial; assumption.
 Qed.
